@@ -202,6 +202,13 @@ impl<'a> Gen<'a> {
                     let (ks, f) = self.body(depth + 1, n, in_retried, true);
                     has_forward |= f;
                     let attrs = if self.rng.chance(3, 4) { vec![(k.to_string(), v)] } else { vec![] };
+                    // a self-closing group binds its attributes for nothing: what follows must not see them,
+                    // and the enclosing element must still close its own scope
+                    if self.rng.chance(1, 6) {
+                        let k0 = *self.rng.pick(&VARS);
+                        let v0 = self.value();
+                        out.push(X::El { name: "g".into(), attrs: vec![(k0.to_string(), v0)], kids: None });
+                    }
                     out.push(X::El { name: "g".into(), attrs, kids: Some(ks) });
                 }
                 6 => {
